@@ -150,7 +150,7 @@ func (m TableMeta) GetPrimaryKeyTypeStrMap() (map[string]string, error) {
 	for _, index := range m.Indexs {
 		if index.IType == IndexTypePrimaryKey {
 			for i := range index.Columns {
-				pkMap[index.ColumnName] = index.Columns[i].DatabaseTypeString
+				pkMap[index.Columns[i].ColumnName] = index.Columns[i].DatabaseTypeString
 			}
 		}
 	}
